@@ -180,6 +180,8 @@ static struct {
     PSymbolEntry  pTwin;         /* the label proper, when pEntry is its GLOBAL alias
                                     (entered first, same old and new value) */
     Boolean       TwinMoved;     /* one of the two has been moved back already */
+    LongWord      JmpErrs;       /* branch-range errors the request discarded ... */
+    Boolean       Thrown;        /* ... and whether -Y also took them out of ErrorCount */
 } LastPhaseErr;
 static unsigned long RepassRequests; /* counts all requests made in this module */
 
@@ -2166,17 +2168,35 @@ static Boolean SymbolAdder(PTree* PDest, PTree Neu, void* pData) {
                     && (NewEntry->SymWert.Contents.Int
                         != (*Node)->SymWert.Contents.Int))) {
                 if ((!Repass) && (JmpErrors > 0)) {
-                    if (ThrowErrors) {
+                    /* if this phase error turns out to be only apparent (label in
+                       front of automatic padding), ChangeSymbol() has to put the
+                       discarded branch errors back as well */
+
+                    LastPhaseErr.pEntry = (NewEntry->SymWert.Typ == TempInt) ? NewEntry : NULL;
+                    LastPhaseErr.OldValue      = (*Node)->SymWert.Contents.Int;
+                    LastPhaseErr.RequestSerial = RepassRequests + 1;
+                    LastPhaseErr.pTwin         = NULL;
+                    LastPhaseErr.TwinMoved     = False;
+                    LastPhaseErr.JmpErrs       = JmpErrors;
+
+                    /* An unreachable branch emits nothing, which moves the labels
+                       behind it, which lets the branch reach its target in the next
+                       pass, which moves them back ...: -Y stops forgiving in late
+                       passes so that such a program ends with its error. */
+
+                    LastPhaseErr.Thrown = ThrowErrors && (PassNo <= 16);
+                    if (LastPhaseErr.Thrown) {
                         ErrorCount -= JmpErrors;
                     }
-                    JmpErrors           = 0;
-                    LastPhaseErr.pEntry = NULL;
+                    JmpErrors = 0;
                 } else if (!Repass && (NewEntry->SymWert.Typ == TempInt)) {
                     LastPhaseErr.pEntry        = NewEntry;
                     LastPhaseErr.OldValue      = (*Node)->SymWert.Contents.Int;
                     LastPhaseErr.RequestSerial = RepassRequests + 1;
                     LastPhaseErr.pTwin         = NULL;
                     LastPhaseErr.TwinMoved     = False;
+                    LastPhaseErr.JmpErrs       = 0;
+                    LastPhaseErr.Thrown        = False;
                 }
 
                 /* the label proper right behind its alias, with the very same
@@ -2368,7 +2388,19 @@ void ChangeSymbol(PSymbolEntry pEntry, LargeInt Value) {
                && (Value == LastPhaseErr.OldValue)
                && (RepassRequests == LastPhaseErr.RequestSerial)) {
         Repass = False;
+    } else {
+        LastPhaseErr.JmpErrs = 0;
     }
+
+    /* withdrawn: the branch-range errors it had discarded count again */
+
+    if (!Repass && LastPhaseErr.JmpErrs) {
+        JmpErrors = LastPhaseErr.JmpErrs;
+        if (LastPhaseErr.Thrown) {
+            ErrorCount += LastPhaseErr.JmpErrs;
+        }
+    }
+    LastPhaseErr.JmpErrs = 0;
     LastPhaseErr.pEntry = NULL;
     LastPhaseErr.pTwin  = NULL;
 }
